@@ -862,24 +862,37 @@ func (rles *RLEs) UnmarshalBinary(b []byte) error {
 	return nil
 }
 
+// maximum number of RLEs (16 bytes each) allocated on the word of a stream header
+// before any RLE has been read.
+const maxPreallocRLEs = 1 << 20
+
 // UnmarshalBinaryReader reads from a reader instead of a static slice of bytes.
 // This will likely be more efficient for very large RLEs that are being streamed
 // into the server.
 func (rles *RLEs) UnmarshalBinaryReader(r io.Reader, numRLEs uint32) error {
-	*rles = make(RLEs, numRLEs, numRLEs)
+	// The declared number of RLEs comes from the stream and is not trusted for allocation,
+	// since a few bytes could otherwise reserve up to 64 GiB.  Preallocate a bounded
+	// number and grow as RLEs are actually read.
+	prealloc := numRLEs
+	if prealloc > maxPreallocRLEs {
+		prealloc = maxPreallocRLEs
+	}
+	*rles = make(RLEs, 0, prealloc)
 	for i := uint32(0); i < numRLEs; i++ {
-		if err := binary.Read(r, binary.LittleEndian, &((*rles)[i].start[0])); err != nil {
+		var rle RLE
+		if err := binary.Read(r, binary.LittleEndian, &(rle.start[0])); err != nil {
 			return err
 		}
-		if err := binary.Read(r, binary.LittleEndian, &((*rles)[i].start[1])); err != nil {
+		if err := binary.Read(r, binary.LittleEndian, &(rle.start[1])); err != nil {
 			return err
 		}
-		if err := binary.Read(r, binary.LittleEndian, &((*rles)[i].start[2])); err != nil {
+		if err := binary.Read(r, binary.LittleEndian, &(rle.start[2])); err != nil {
 			return err
 		}
-		if err := binary.Read(r, binary.LittleEndian, &((*rles)[i].length)); err != nil {
+		if err := binary.Read(r, binary.LittleEndian, &(rle.length)); err != nil {
 			return err
 		}
+		*rles = append(*rles, rle)
 	}
 	return nil
 }
